@@ -16,6 +16,8 @@ import (
 	"github.com/taurusgroup/multi-party-sig/pkg/party"
 	"github.com/taurusgroup/multi-party-sig/pkg/protocol"
 	"github.com/taurusgroup/multi-party-sig/protocols/doerner"
+
+	"verifharness/sx"
 )
 
 func init() { props["C17"] = runC17; props["C17RACE"] = runC17Race }
@@ -45,14 +47,54 @@ func resultClass(h protocol.Handler) (int, string) {
 	return 3, "nil result and nil error"
 }
 
-func (c *ctx) c17History(sp SessionSpec, seed int64, sh shapeInfo) {
+// pts: per party the messages it receives in an honest run; withPanic: processing one of the victim's incoming messages
+// (seeded choice among pts) panics inside the round (c17_panic.go)
+func (c *ctx) c17History(sp SessionSpec, seed int64, sh shapeInfo, pts map[party.ID][]c17PanicPoint, withPanic bool) {
 	det := installDetReader(seed, 0)
 	defer restoreRandReader()
 	rng := rand.New(rand.NewSource(seed))
+	sorted := party.NewIDSlice(sp.IDs)
+	victim := sorted[rng.Intn(len(sorted))]
+	// the panicking message is chosen from a separate stream: the history itself is the one the seed gives without it
+	var plan *c17PanicPlan
+	if prng := rand.New(rand.NewSource(seed ^ 0x5eed17)); withPanic && len(pts[victim]) > 0 {
+		plan = &c17PanicPlan{Pt: pts[victim][prng.Intn(len(pts[victim]))], Val: "c17: processing this message panics"}
+		sp = c17WithPanic(sp, victim, plan)
+	}
 	s := sp.build(rng, det)
-	victim := s.IDs[rng.Intn(len(s.IDs))]
 	v := s.Nodes[victim]
 	var hist []string
+	if plan != nil {
+		hist = append(hist, "processing "+plan.Pt.String()+" panics")
+	}
+	// what the model is told about a message: the one whose processing panics is an invalid message
+	mark := func(e *Env) *Env {
+		if plan != nil && e.To == victim && plan.Pt.matches(e.Msg) {
+			e.Valid = false
+		}
+		return e
+	}
+	// deliver to the victim; the call in which the panic fires must end the running session with the panic error, naming nobody
+	deliverV := func(e *Env) Obs {
+		before, was := 0, 0
+		if plan != nil {
+			before = plan.Fired()
+			was, _ = resultClass(v.H)
+		}
+		o := s.Deliver(mark(e))
+		if plan != nil && plan.Fired() > before {
+			if was != 0 {
+				c.res.Violate("property", "C17/"+sp.Name+"/processed-after-end", "a message was processed by the round although the session had ended",
+					c17Replay{Spec: sp.Name, Seed: seed, Victim: string(victim), History: append([]string{}, hist...), What: "processed-after-end"})
+			}
+			if o.Panic == "" && !o.Hung && (o.Class != 2 || !strings.HasPrefix(o.ErrText, c17PanicErrPrefix) || len(o.Culprits) != 0 || !o.Closed) {
+				c.res.Violate("property", "C17/"+sp.Name+"/panic-not-contained", fmt.Sprintf("a panic while processing %s did not end the session cleanly (class %d, error %.80q, culprits %v, closed %v)",
+					plan.Pt, o.Class, o.ErrText, o.Culprits, o.Closed),
+					c17Replay{Spec: sp.Name, Seed: seed, Victim: string(victim), History: append([]string{}, hist...), What: "panic-not-contained"})
+			}
+		}
+		return o
+	}
 	bad := func(what string) {
 		c.res.Violate("property", "C17/"+sp.Name+"/"+strings.SplitN(what, ":", 2)[0], what,
 			c17Replay{Spec: sp.Name, Seed: seed, Victim: string(victim), History: append([]string{}, hist...), What: what})
@@ -101,14 +143,19 @@ func (c *ctx) c17History(sp SessionSpec, seed int64, sh shapeInfo) {
 	for (len(s.Flight) > 0 || steps < 6) && steps < 400 {
 		steps++
 		choice := rng.Intn(10)
+		if plan != nil && plan.Fired() == 0 && (choice == 5 || choice == 6) && rng.Intn(3) != 0 {
+			choice = 0 // histories with a panicking message: fewer early Stops / abort notices, so that the message is reached more often
+		}
 		switch {
 		case choice <= 4 && len(s.Flight) > 0:
 			i := rng.Intn(len(s.Flight))
 			e := s.take(i)
 			hist = append(hist, "deliver "+envName(e))
-			s.Deliver(e)
 			if e.To == victim {
+				deliverV(e)
 				check()
+			} else {
+				s.Deliver(e)
 			}
 		case choice == 5:
 			cl, _ := resultClass(v.H)
@@ -144,7 +191,7 @@ func (c *ctx) c17History(sp SessionSpec, seed int64, sh shapeInfo) {
 			for _, e := range s.Flight {
 				if e.To == victim {
 					hist = append(hist, "dup "+envName(e))
-					s.Deliver(&Env{Msg: e.Msg, To: e.To, Valid: true, Tag: "/dup"})
+					deliverV(&Env{Msg: e.Msg, To: e.To, Valid: true, Tag: "/dup"})
 					check()
 					break
 				}
@@ -154,11 +201,19 @@ func (c *ctx) c17History(sp SessionSpec, seed int64, sh shapeInfo) {
 			check()
 		}
 	}
-	c.res.Case(sp.Name, sp.Name+strings.Join(hist, ","), len(hist) > 0)
+	class := sp.Name
+	if plan != nil {
+		class += map[bool]string{true: "/panic-recovered", false: "/panic-not-reached"}[plan.Fired() > 0]
+	}
+	c.res.Case(class, sp.Name+strings.Join(hist, ","), len(hist) > 0)
 	c.res.Sample(2, map[string]interface{}{"spec": sp.Name, "victim": victim, "history": hist})
 	// model replay for every node
 	for _, n := range s.Nodes {
-		i, mo, ro, err := c.CompareWithModel(s, n, sh, true)
+		var norm func(int, sx.V, sx.V) (sx.V, sx.V)
+		if plan != nil && n.ID == victim {
+			norm = c17MaskCulpritsAfterPanic(n)
+		}
+		i, mo, ro, err := c.CompareWithModelNorm(s, n, sh, true, norm)
 		if err != nil {
 			c.res.Corr(false)
 			c.res.Violate("correspondence", "C17/model-error", err.Error(), nil)
@@ -174,7 +229,10 @@ func (c *ctx) c17History(sp SessionSpec, seed int64, sh shapeInfo) {
 
 func runC17(c *ctx) {
 	c.res.Rule = "random API histories (deliver / Stop / abort notice / foreign / duplicate / Result) on one handler at random points of xor and FROST keygen sessions; " +
-		"oracles: no panic, no hang, closed iff ended, Result stable after the end, Stop ends a running session; each history replayed in the Coq model; non-trivial = non-empty history"
+		"plus a third as many histories in which processing one incoming message panics inside the round (proxy round.Session): the session must end cleanly with the panic error; " +
+		"oracles: no panic, no hang, closed iff ended, Result stable after the end, Stop ends a running session; each history replayed in the Coq model " +
+		"(a recovered panic is replayed as an invalid message, culprits masked: the model has no panic event); non-trivial = non-empty history; " +
+		"concurrent sessions with a panicking message under Result / CanAccept / Stop / Accept from other goroutines (no escaping panic, Result fixed after the end, closed)"
 	n := 150
 	if c.thorough() {
 		n = 3000
@@ -184,6 +242,9 @@ func runC17(c *ctx) {
 		specXOR(idsOf("a", "b"), nil),
 		specFrostKeygen(idsOf("alice", "bob", "carl"), 1, false, []byte("k")),
 	}
+	// replay of one history (c17Replay) or one concurrent panic session (c17PanicSession)
+	var rp c17Replay
+	replaying := c.replay != "" && readJSON(c.replay, &rp) == nil && rp.Spec != ""
 	for _, sp := range specs {
 		// learn the shape from an honest in-order run
 		det := installDetReader(5, 0)
@@ -191,10 +252,39 @@ func runC17(c *ctx) {
 		ref.RunFIFO(10000)
 		restoreRandReader()
 		sh := ref.learnShape()
+		pts := c17PanicPoints(ref)
+		if replaying {
+			if rp.Spec == sp.Name {
+				c.c17History(sp, rp.Seed, sh, pts, len(rp.History) > 0 && strings.HasPrefix(rp.History[0], "processing "))
+			}
+			continue
+		}
 		for k := 0; k < n; k++ {
-			c.c17History(sp, c.res.Seed*100000+int64(k), sh)
+			c.c17History(sp, c.res.Seed*100000+int64(k), sh, pts, false)
+		}
+		// further histories in which processing one incoming message panics inside the round
+		for k := 0; k < n/3; k++ {
+			c.c17History(sp, c.res.Seed*100000+50000+int64(k), sh, pts, true)
 		}
 	}
+	if replaying {
+		if strings.HasPrefix(rp.Spec, "panic-recovery/") {
+			var ps c17PanicSession
+			if readJSON(c.replay, &ps) == nil {
+				c.c17PanicConcurrent(ps.It, 1)
+			}
+		} else if strings.HasPrefix(rp.Spec, "doerner-") {
+			c.c17TwoParty()
+		}
+		return
+	}
+	// sessions in which processing a message panics, under concurrent Result / CanAccept / Stop / Accept (c17_panic.go;
+	// the same sessions run under the race detector in C17RACE)
+	np := 12
+	if c.thorough() {
+		np = 120
+	}
+	c.c17PanicConcurrent(0, np)
 	// TwoPartyHandler (Doerner sessions): same oracles, replayed in Model/TwoParty.v; a few of its (larger) histories go to cases.v
 	c.m.MaxLog, c.m.MaxLogSize = c.m.MaxLog+12, 8000
 	c.c17TwoParty()
@@ -202,7 +292,8 @@ func runC17(c *ctx) {
 
 // runC17Race: concurrent use; meaningful only in the binary built with -race (the race detector aborts with exit code 66).
 func runC17Race(c *ctx) {
-	c.res.Rule = "4-8 goroutines call Accept/CanAccept/Listen/Result/Stop concurrently on the MultiHandlers of xor and FROST sessions and the TwoPartyHandlers of Doerner key generation (binary built with -race)"
+	c.res.Rule = "4-8 goroutines call Accept/CanAccept/Listen/Result/Stop concurrently on the MultiHandlers of xor and FROST sessions and the TwoPartyHandlers of Doerner key generation (binary built with -race); " +
+		"xor / FROST keygen sessions in which processing one message panics inside the round while other goroutines call Result / CanAccept / Stop / Accept"
 	iters := 60
 	if c.thorough() {
 		iters = 600
@@ -334,5 +425,12 @@ func runC17Race(c *ctx) {
 		withWatchdog(10e9, func() { wg.Wait() })
 		c.res.Case("race/"+sp.Name, fmt.Sprint(it), true)
 	}
+	// sessions in which processing a message panics inside a round while other goroutines call Result / CanAccept / Stop /
+	// Accept on the same handler (c17_panic.go): the recovery must run under the handler's lock
+	np := 36
+	if c.thorough() {
+		np = 360
+	}
+	c.c17PanicConcurrent(0, np)
 	c.res.Sample(1, "concurrent sessions completed; data races are reported by the race detector (exit code 66)")
 }
